@@ -11,6 +11,10 @@ def keyToUrlOp (basePath key : String) : Sexp :=
 def urlToKeyOp (basePath url : String) : Sexp :=
   .str (String.ofList (urlToKey (baseOf basePath.toList) url.toList))
 
+/-- `(uri.definition #basePath #key #url)`: the URI go-to-definition answers for the link `url` met in note `key` -/
+def definitionOp (basePath key url : String) : Sexp :=
+  .str (String.ofList (definitionTarget basePath.toList key.toList url.toList))
+
 def safeKey (key : String) : Bool :=
   (key.splitOn "/").all fun c => safeComponent c.toList
 
